@@ -10,7 +10,9 @@
 //   material <x> <y>                 -> ab=<8 bytes hex> ba=<8 bytes hex>   (make_handshake_material(x,y), (y,x))
 //   dh <a> <b>                       -> pA=<pub a> pB=<pub b> sA=<secret a derives from pB> sB=<secret b derives from pA>
 //   register <secret hex> <material hex> -> <32-byte key hex>         (KeyManager)
-//   ident <seed>                     -> scalar=<s> pub=<p>            (Node with identity_seed)
+//   ident <seed>                     -> scalar=<s> pub=<p> again=<p'> cli=<p''|?>
+//                                       (Node with identity_seed; a second node with the same seed; the CLI's
+//                                        derive_public_identity_from_seed(seed), `?` without VERIF_INTERNALS)
 //   hsk <sA> <idA> <bitsA> <sB> <idB> <bitsB>
 //        two fresh nodes with the given private scalars; each solves work for the other with its own
 //        configured difficulty and performs the handshake
@@ -41,6 +43,10 @@
 #include "ephemeralnet/network/KeyManager.hpp"
 
 using namespace ephemeralnet;
+
+#if VERIF_INTERNALS
+namespace kexcli { std::uint32_t public_from_seed(std::uint32_t seed); }  // harness/kex_cli_h.cpp
+#endif
 
 namespace {
 
@@ -118,7 +124,14 @@ int main(int argc, char** argv) {
             Config c = quiet_config(0);
             c.identity_seed = u32(t[1]);
             Node n(verif::id32("n1"), c);
-            return "scalar=" + std::to_string(n.identity_scalar_) + " pub=" + std::to_string(n.public_identity());
+            Node again(verif::id32("n2"), c);
+#if VERIF_INTERNALS
+            const std::string cli = std::to_string(kexcli::public_from_seed(u32(t[1])));
+#else
+            const std::string cli = "?";
+#endif
+            return "scalar=" + std::to_string(n.identity_scalar_) + " pub=" + std::to_string(n.public_identity()) +
+                   " again=" + std::to_string(again.public_identity()) + " cli=" + cli;
         }
         if (op == "hsk" && t.size() == 7) {
             auto a = make_node(t[2], u32(t[1]), static_cast<std::uint8_t>(std::stoul(t[3])));
